@@ -178,6 +178,14 @@ func step(e tr.Ev) {
 		e["res"] = tr.Ev{"str": cps(s), "back": fidRes(needle.ParseFileIdFromString(s))}
 	case "fidstr":
 		e["res"] = fidRes(needle.ParseFileIdFromString(str(e["s"])))
+	case "path":
+		n := new(needle.Needle)
+		err := n.ParsePath(str(e["s"]))
+		r := tr.Ev{"err": err != nil, "key": []int{}, "ck": []int{}}
+		if err == nil {
+			r["key"], r["ck"] = beBytes(uint64(n.Id), 8), beBytes(uint64(n.Cookie), 4)
+		}
+		e["res"] = r
 	case "idx":
 		key := types.NeedleId(be(e["key"]))
 		off := types.ToOffset(int64(be(e["off"])) * types.NeedlePaddingSize)
